@@ -828,6 +828,12 @@ func (in *Interp) chanSend(c *Chan, v Value) {
 		in.journal = append(in.journal, journalEntry{undo: func() { c.buf = old }})
 	}
 	c.buf = append(append([]Value{}, c.buf...), copyVal(v))
+	oldSeq := c.seqs
+	in.chanSeq++
+	c.seqs = append(append([]int{}, c.seqs...), in.chanSeq)
+	if in.journaling {
+		in.journal = append(in.journal, journalEntry{undo: func() { c.seqs = oldSeq }})
+	}
 }
 
 func (in *Interp) chanRecv(c *Chan, ct types.Type) (Value, bool) {
@@ -842,6 +848,13 @@ func (in *Interp) chanRecv(c *Chan, ct types.Type) (Value, bool) {
 			in.journal = append(in.journal, journalEntry{undo: func() { c.buf = old }})
 		}
 		c.buf = c.buf[1:]
+		if len(c.seqs) > 0 {
+			oldSeq := c.seqs
+			if in.journaling {
+				in.journal = append(in.journal, journalEntry{undo: func() { c.seqs = oldSeq }})
+			}
+			c.seqs = c.seqs[1:]
+		}
 		return v, true
 	}
 	if c.closed {
@@ -862,30 +875,44 @@ func (in *Interp) chanClose(c *Chan) {
 		in.journal = append(in.journal, journalEntry{undo: func() { c.closed = false }})
 	}
 	c.closed = true
+	in.chanSeq++
+	c.closedSeq = in.chanSeq
 }
 
 func (in *Interp) selectOp(fr *frame, instr *ssa.Select) Value {
 	tt := in.tt
-	// ready cases
-	var ready []int
+	// Ready cases. Operations queued by the harness (vGo) are consumed in the
+	// program order in which they were issued: the ready receive with the
+	// oldest sequence number is taken. Sends are taken only when no receive
+	// is ready.
+	chosen := -1
+	best := int(^uint(0) >> 1)
+	var sends []int
 	for i, st := range instr.States {
 		c, _ := fr.get(st.Chan).(*Chan)
 		if c == nil {
 			continue
 		}
 		if st.Dir == types.RecvOnly {
-			if len(c.buf) > 0 || c.closed {
-				ready = append(ready, i)
+			if len(c.buf) > 0 {
+				seq := 0
+				if len(c.seqs) > 0 {
+					seq = c.seqs[0]
+				}
+				if seq < best {
+					best, chosen = seq, i
+				}
+			} else if c.closed && c.closedSeq < best {
+				best, chosen = c.closedSeq, i
 			}
 		} else {
-			// sends are always "ready" in the queue model
-			ready = append(ready, i)
+			sends = append(sends, i)
 		}
 	}
-	chosen := -1
-	if len(ready) > 0 {
-		chosen = ready[in.choose(len(ready))]
-	} else if instr.Blocking {
+	if chosen < 0 && len(sends) > 0 {
+		chosen = sends[in.choose(len(sends))]
+	}
+	if chosen < 0 && instr.Blocking {
 		in.abort(abBlocked, "select with no ready case")
 	}
 	r := Tuple{tt.BV(64, uint64(int64(chosen))), tt.F}
